@@ -25,6 +25,7 @@ import (
 	"sync"
 	"time"
 
+	"verifharness/adapter/common"
 	"verifharness/gen/treegen"
 	"verifharness/oracle"
 	"verifharness/run"
@@ -69,9 +70,12 @@ var gomaxprocsValues = []int{1, 2, 4, 16}
 var Check = &run.Check{
 	ID:    "C16",
 	Level: "exploration",
-	Rule: "case = generated tree (0-8 immediate sub-directories of kinds plain / dotted name / .git,.svn,.hg,.idea,coca_reporter / empty / nested with files at several depths; " +
+	Rule: "case = generated tree (0-8 immediate sub-directories of kinds plain / dotted name / look-alikes of the ignored names (jgit, xsvn, ahg, aidea, git, .github, .gitx, my_coca_reporter ...) / " +
+		".git,.svn,.hg,.idea,coca_reporter / empty / nested with files at several depths; directories named coca_reporter, .idea, old_coca_reporter at depth >= 2 with sources; " +
+		"sometimes a language that occurs only inside the top-level .idea / coca_reporter; every fifth case has all six languages (polyglot: > 5 languages in one top-file report); " +
 		"0-3 root-level files; 1-6 of Java, Go, Python, JavaScript, C, Shell; every file has planted code/comment/blank line counts, whole-line comments only) " +
-		"x 4 executions of the real CLI: by-directory with cwd outside the tree (absolute, ../proj or proj argument) and with cwd = tree (`.`), top-file likewise, " +
+		"x 4 executions of the real CLI: by-directory with the scanned directory spelled from outside (abs, abs/, rel, ./rel, rel/, sub/.., ../rel; common.SpellRoot, rotating with the case index) " +
+		"and from inside (`.` or `..` from an empty sub-directory), top-file likewise, " +
 		"each with its own include-ext filter (none / subset / extension absent from the tree; -i and --include-ext forms) and top-size (default, 0..100); " +
 		"cases 25-27 (thorough also 500-519) are wide trees: ONE language with 1024-1400 files of 1-3 code lines plus ~40 scattered peaks of 4-60 lines over 8 sub-directories, " +
 		"3 top-file executions (N 1-20, default 30, 50-200 restricted to that language) + 1 by-directory; " +
@@ -81,8 +85,10 @@ var Check = &run.Check{
 		"plus coordinator-level race runs: coca built with -race on trees of several hundred files / 8 sub-directories (every third run on a wide tree) under GOMAXPROCS 1,2,4,16",
 	Assumptions: []string{
 		"only text whose line classification is undisputed is generated (see gen/treegen: no shebang lines, docstrings, trailing comments, comment markers in strings, extension-less files, .gitignore)",
-		"ignored directory names occur only directly under the root; no path component other than the VCS directories ends in .git/.hg/.svn",
-		"the header must name every language that has a file outside the ignored directories and may name languages found only inside them (the statement says 'whole tree' and leaves that open); likewise files inside ignored directories may or may not be listed by top-file",
+		"no path component other than the top-level VCS directories ends in .git/.hg/.svn",
+		"'the languages found in the whole tree' includes the top-level .idea and coca_reporter (the repository's golden cloc_ignore.txt names a language found only in .idea); a language found only below a top-level .git/.svn/.hg may or may not be named, and such files may or may not be listed by top-file (left open)",
+		"the ignored directories are exactly the immediate sub-directories named .git .svn .hg .idea coca_reporter; look-alike names (jgit, .github, git, my_coca_reporter ...) are ordinary and need a row; a directory called coca_reporter or .idea below an immediate sub-directory belongs to that sub-directory; nested .git/.svn/.hg and other IDE directories (.vscode ...) are not generated (open)",
+		"the `..` and `sub/..` spellings add the empty sub-directory zzcwd to the scanned tree (created by common.SpellRoot): it is expected as one more all-zero row",
 		"row order and column order are not promised by the statement and not asserted; cells are read through the header",
 		"printed top-file tables are required only when the report has at most five languages (cmd/cloc.go suppresses them otherwise, on purpose); the Location text is only required to be a suffix of a matching file's path",
 		"each execution gets a freshly materialised tree and its own working directory, so coca_reporter never holds output of an earlier execution",
@@ -104,8 +110,9 @@ var Check = &run.Check{
 // one execution of the CLI
 
 type spec struct {
-	Mode       string   `json:"mode"` // bydir | top
-	Cwd        string   `json:"cwd"`  // outside-abs | outside-rel | outside-parent | inside
+	Mode       string   `json:"mode"`         // bydir | top
+	Pick       int      `json:"root_pick"`    // common.SpellRoot selector
+	Cwd        string   `json:"root_spelled"` // its kind: abs | abs-slash | rel | dot-rel | rel-slash | dot | dotdot | sub-dotdot | via-sibling
 	Filter     []string `json:"filter,omitempty"`
 	FilterForm int      `json:"filter_form"`
 	TopN       int      `json:"top_n"` // -1: flag omitted (default 30)
@@ -215,7 +222,18 @@ type sortLang struct {
 
 // execute materialises the tree under base, runs one CLI execution and applies the oracle.
 // raceBuild: exit code 66 is what a -race binary returns when it reported something; not a crash.
+// execute runs one CLI execution; every mismatch signature carries the way the scanned directory was spelled.
 func execute(bin string, t *treegen.Tree, base string, s spec, env []string, raceBuild bool, timeout time.Duration) (observation, []oracle.ClocMismatch, string) {
+	ob, ms, incon := executeRaw(bin, t, base, s, env, raceBuild, timeout)
+	for i := range ms {
+		if !strings.Contains(ms[i].Sig, "@") {
+			ms[i].Sig += "@" + ob.Spec.Cwd
+		}
+	}
+	return ob, ms, incon
+}
+
+func executeRaw(bin string, t *treegen.Tree, base string, s spec, env []string, raceBuild bool, timeout time.Duration) (observation, []oracle.ClocMismatch, string) {
 	ob := observation{Spec: s}
 	var ms []oracle.ClocMismatch
 	root := filepath.Join(base, "proj")
@@ -224,16 +242,16 @@ func execute(bin string, t *treegen.Tree, base string, s spec, env []string, rac
 	}
 	tmp := filepath.Join(base, "tmp")
 	os.MkdirAll(tmp, 0o755)
-	cwd, dirArg := "", ""
-	switch s.Cwd {
-	case "outside-abs":
-		cwd, dirArg = filepath.Join(base, "cwd"), root
-	case "outside-rel":
-		cwd, dirArg = filepath.Join(base, "cwd"), "../proj"
-	case "outside-parent":
-		cwd, dirArg = base, "proj"
-	default:
-		cwd, dirArg = root, "."
+	fallback := filepath.Join(base, "cwd")
+	os.MkdirAll(fallback, 0o755)
+	cwd, dirArg, kind := common.SpellRoot(s.Pick, root, fallback)
+	s.Cwd = kind
+	ob.Spec = s
+	if kind == "dotdot" || kind == "sub-dotdot" {
+		// SpellRoot created the empty directory proj/zzcwd: one more immediate sub-directory of the scanned tree
+		// (for `..` it is the working directory, so coca_reporter/ is written below it: JSON only, none of the six
+		// languages, so its row is all zeros like that of any empty directory)
+		t = t.WithEmptySub("zzcwd")
 	}
 	os.MkdirAll(cwd, 0o755)
 	ob.Args = s.args(dirArg)
@@ -244,7 +262,7 @@ func execute(bin string, t *treegen.Tree, base string, s spec, env []string, rac
 	}
 	okExit := res.Exit == 0 || (raceBuild && res.Exit == 66)
 	if !okExit || strings.Contains(res.Stderr, "panic:") || strings.Contains(res.Stderr, "fatal error:") {
-		sig := "cli-crash-" + s.Mode
+		sig := "cli-crash-" + s.Mode + "@" + kind
 		ms = append(ms, oracle.ClocMismatch{Sig: sig, Msg: fmt.Sprintf("`coca %s` (cwd %s) exit %d: %s", strings.Join(ob.Args, " "), s.Cwd, res.Exit, clip(firstLines(res.Stderr, 4), 400))})
 		return ob, ms, ""
 	}
@@ -284,11 +302,7 @@ func execute(bin string, t *treegen.Tree, base string, s spec, env []string, rac
 		tl := oracle.ClocTopLang{Name: l.Name}
 		fmt.Fprintf(&red, "%s:", l.Name)
 		for _, f := range l.Files {
-			loc := f.Location
-			if !filepath.IsAbs(loc) {
-				loc = filepath.Join(cwd, loc)
-			}
-			rel, err := filepath.Rel(root, filepath.Clean(loc))
+			rel, err := filepath.Rel(root, common.AbsFrom(cwd, f.Location))
 			if err != nil || rel == ".." || strings.HasPrefix(rel, "../") {
 				rel = ""
 			}
@@ -358,15 +372,40 @@ func drawFilter(r *run.Rand, t *treegen.Tree, wantAtMost5 bool) []string {
 	return out
 }
 
-func drawSpecs(r *run.Rand, t *treegen.Tree) []spec {
-	outside := []string{"outside-abs", "outside-abs", "outside-rel", "outside-parent"}
-	tops := []int{-1, 0, 1, 1, 2, 3, 5, 10, 30, 100}
-	return []spec{
-		{Mode: "bydir", Cwd: r.Pick(outside), Filter: drawFilter(r, t, false), FilterForm: r.Intn(4), FlagsFirst: r.Chance(1, 4)},
-		{Mode: "bydir", Cwd: "inside", Filter: drawFilter(r, t, false), FilterForm: r.Intn(4), FlagsFirst: r.Chance(1, 4)},
-		{Mode: "top", Cwd: r.Pick(outside), Filter: drawFilter(r, t, r.Chance(2, 3)), FilterForm: r.Intn(4), TopN: tops[r.Intn(len(tops))], TopForm: r.Intn(2), FlagsFirst: r.Chance(1, 4)},
-		{Mode: "top", Cwd: "inside", Filter: drawFilter(r, t, r.Chance(2, 3)), FilterForm: r.Intn(4), TopN: tops[r.Intn(len(tops))], TopForm: r.Intn(2), FlagsFirst: r.Chance(1, 4)},
+var spellKinds = []string{"abs", "abs-slash", "rel", "dot-rel", "rel-slash", "dot", "dotdot", "sub-dotdot", "via-sibling"}
+
+// outsidePicks: spellings whose working directory is outside the scanned tree; insidePicks: `.` and `..`
+// (coca_reporter/ is then written inside the tree, where it is an ignored directory itself).
+var outsidePicks = []int{0, 1, 2, 3, 4, 7, 8}
+
+func sp(mode string, pick int) spec { return spec{Mode: mode, Pick: pick, Cwd: spellKinds[pick%9]} }
+
+func insidePick(r *run.Rand) int {
+	if r.Chance(1, 3) {
+		return 6
 	}
+	return 5
+}
+
+// drawSpecs: the spellings rotate with the case index, so that a run of n cases covers all nine kinds.
+func drawSpecs(r *run.Rand, t *treegen.Tree, idx int, allLangs bool) []spec {
+	tops := []int{-1, 0, 1, 1, 2, 3, 5, 10, 30, 100}
+	a := sp("bydir", outsidePicks[idx%len(outsidePicks)])
+	a.Filter, a.FilterForm, a.FlagsFirst = drawFilter(r, t, false), r.Intn(4), r.Chance(1, 4)
+	b := sp("bydir", insidePick(r))
+	b.Filter, b.FilterForm, b.FlagsFirst = drawFilter(r, t, false), r.Intn(4), r.Chance(1, 4)
+	c := sp("top", (idx*2+1)%9)
+	c.Filter, c.FilterForm, c.TopN, c.TopForm, c.FlagsFirst = drawFilter(r, t, r.Chance(2, 3)), r.Intn(4), tops[r.Intn(len(tops))], r.Intn(2), r.Chance(1, 4)
+	d := sp("top", insidePick(r))
+	d.Filter, d.FilterForm, d.TopN, d.TopForm, d.FlagsFirst = drawFilter(r, t, r.Chance(2, 3)), r.Intn(4), tops[r.Intn(len(tops))], r.Intn(2), r.Chance(1, 4)
+	if allLangs {
+		// the polyglot cases: the whole tree, no filter (six languages in one report)
+		a.Filter, c.Filter = nil, nil
+		if r.Bool() {
+			d.Filter = nil
+		}
+	}
+	return []spec{a, b, c, d}
 }
 
 // wideCount is the length of the longest per-language file list of the tree.
@@ -397,14 +436,35 @@ func wideExt(t *treegen.Tree) string {
 // drawWideSpecs: three top-file executions on a wide tree (small N, default N, N larger than the peaks; one of them
 // restricted to the wide language) and one by-directory execution.
 func drawWideSpecs(r *run.Rand, t *treegen.Tree) []spec {
-	outside := []string{"outside-abs", "outside-rel", "outside-parent"}
 	small := []int{1, 3, 5, 10, 20}
-	return []spec{
-		{Mode: "top", Cwd: r.Pick(outside), TopN: small[r.Intn(len(small))], TopForm: r.Intn(2), FlagsFirst: r.Chance(1, 4)},
-		{Mode: "top", Cwd: "inside", TopN: -1},
-		{Mode: "top", Cwd: r.Pick(outside), Filter: []string{wideExt(t)}, FilterForm: r.Intn(4), TopN: []int{50, 100, 200}[r.Intn(3)], TopForm: r.Intn(2)},
-		{Mode: "bydir", Cwd: r.Pick([]string{"inside", "outside-abs"}), FilterForm: r.Intn(4)},
+	a := sp("top", outsidePicks[r.Intn(len(outsidePicks))])
+	a.TopN, a.TopForm, a.FlagsFirst = small[r.Intn(len(small))], r.Intn(2), r.Chance(1, 4)
+	b := sp("top", 5)
+	b.TopN = -1
+	c := sp("top", outsidePicks[r.Intn(len(outsidePicks))])
+	c.Filter, c.FilterForm, c.TopN, c.TopForm = []string{wideExt(t)}, r.Intn(4), []int{50, 100, 200}[r.Intn(3)], r.Intn(2)
+	d := sp("bydir", []int{5, 0, 6}[r.Intn(3)])
+	return []spec{a, b, c, d}
+}
+
+// langsOnlyInIdeOrReportDir counts languages all of whose files live in the top-level .idea / coca_reporter.
+func langsOnlyInIdeOrReportDir(t *treegen.Tree) int {
+	in, out := map[string]bool{}, map[string]bool{}
+	for _, f := range t.Files {
+		top := f.TopDir()
+		if top == ".idea" || top == "coca_reporter" {
+			in[f.Lang] = true
+		} else if !treegen.IsVCSName(top) {
+			out[f.Lang] = true
+		}
 	}
+	n := 0
+	for l := range in {
+		if !out[l] {
+			n++
+		}
+	}
+	return n
 }
 
 func treeStats(t *treegen.Tree) (dirsWithCode, langs int, special bool) {
@@ -433,6 +493,10 @@ func treeStats(t *treegen.Tree) (dirsWithCode, langs int, special bool) {
 	}
 	return dirsWithCode, len(ls), special
 }
+
+// isPolyglot: every fifth ordinary case has all six languages (more than five: the printed tables are suppressed,
+// sort_cloc.json must still list every language).
+func isPolyglot(idx int) bool { return !isWide(idx) && idx%5 == 2 }
 
 func caseOpts(r *run.Rand, tier string) treegen.Opts {
 	o := treegen.Opts{MinSubs: 0, MaxSubs: 8, MaxFilesPerDir: 5, MaxRootFiles: 3, MaxLines: 14, MaxLangs: 6}
@@ -466,8 +530,16 @@ func runCase(c *run.Ctx, o *run.Outcome) {
 		o.Count("wide_cases", 1)
 		o.Count("wide_language_files", wideCount(t))
 	} else {
-		t = treegen.Generate(r.Fork(), caseOpts(r, c.Tier))
-		specs = drawSpecs(r.Fork(), t)
+		opts := caseOpts(r, c.Tier)
+		if isPolyglot(c.Index) {
+			opts.AllLangs, opts.MaxLangs = true, 6
+			if opts.MinSubs < 2 {
+				opts.MinSubs = 2
+			}
+			o.Count("polyglot_cases_6_languages", 1)
+		}
+		t = treegen.Generate(r.Fork(), opts)
+		specs = drawSpecs(r.Fork(), t, c.Index, isPolyglot(c.Index))
 	}
 	dirsWithCode, nLangs, special := treeStats(t)
 	o.NonTrivial = dirsWithCode >= 2 && nLangs >= 2 && special
@@ -484,12 +556,23 @@ func runCase(c *run.Ctx, o *run.Outcome) {
 		o.Seen("subdir_names", s.Name)
 	}
 	for _, f := range t.Files {
+		if parts := strings.Split(f.Rel, "/"); len(parts) >= 3 {
+			for _, p := range parts[1 : len(parts)-1] {
+				if strings.HasSuffix(p, "coca_reporter") || p == ".idea" {
+					o.Count("files_below_nested_reporter_or_idea_dir", 1)
+					break
+				}
+			}
+		}
 		o.Count("code_lines_planted", f.Code)
 		o.Count("comment_lines_planted", f.Comment)
 		o.Count("blank_lines_planted", f.Blank)
 		if f.TopDir() == "" {
 			o.Count("root_level_files", 1)
 		}
+	}
+	if n := langsOnlyInIdeOrReportDir(t); n > 0 {
+		o.Count("trees_with_language_only_in_idea_or_coca_reporter", 1)
 	}
 	witness := map[string]interface{}{"tree": t.Describe(!isWide(c.Index))} // wide trees: bodies are regenerated on replay
 	var observed []observation
@@ -505,13 +588,13 @@ func runCase(c *run.Ctx, o *run.Outcome) {
 			return
 		}
 		o.Count("cli_runs_"+s.Mode, 1)
-		o.Count("cli_runs_cwd_"+s.Cwd, 1)
+		o.Count("cli_root_spelled_"+ob.Spec.Cwd, 1)
 		if len(s.Filter) > 0 {
 			o.Count("cli_runs_with_include_ext", 1)
 		}
 		countObserved(o, t, s, ob)
 		for _, m := range ms {
-			o.Violate(m.Sig, "[`coca %s`, cwd %s] %s", strings.Join(ob.Args, " "), s.Cwd, m.Msg)
+			o.Violate(m.Sig, "[`coca %s`, root spelled %s] %s", strings.Join(ob.Args, " "), ob.Spec.Cwd, m.Msg)
 		}
 		if len(ms) == 0 {
 			o.Count("executions_matching_oracle", 1)
@@ -520,7 +603,7 @@ func runCase(c *run.Ctx, o *run.Outcome) {
 	if c.Index < 64 {
 		var runs []map[string]interface{}
 		for _, ob := range observed {
-			runs = append(runs, map[string]interface{}{"args": strings.Join(ob.Args, " "), "cwd": ob.Spec.Cwd, "cloc_csv": ob.Csv, "sort_cloc": clip(ob.SortJSON, 400)})
+			runs = append(runs, map[string]interface{}{"args": strings.Join(ob.Args, " "), "root_spelled": ob.Spec.Cwd, "cloc_csv": ob.Csv, "sort_cloc": clip(ob.SortJSON, 400)})
 		}
 		o.Sample = map[string]interface{}{"tree": t.Describe(false), "executions": runs}
 	}
@@ -531,6 +614,9 @@ func countObserved(o *run.Outcome, t *treegen.Tree, s spec, ob observation) {
 	if s.Mode == "bydir" {
 		e := oracle.ExpectByDir(t, oracle.ClocFilter(s.Filter))
 		o.Count("bydir_rows_expected", len(e.Rows))
+		if ob.Spec.Cwd == "dotdot" || ob.Spec.Cwd == "sub-dotdot" {
+			o.Count("bydir_rows_expected", 1) // zzcwd
+		}
 		lines := strings.Split(strings.TrimSpace(ob.Csv), "\n")
 		if len(lines) > 0 && ob.Csv != "" {
 			o.Count("bydir_rows_observed", len(lines)-1)
@@ -604,11 +690,11 @@ func raceRun(bin string, seed int64, tier string, i int, scratch string) raceRes
 		return res
 	}
 	env := []string{"GOMAXPROCS=" + strconv.Itoa(gmp), "GORACE=halt_on_error=0 log_path=" + filepath.Join(abs, "race")}
-	cw := []string{"outside-abs", "inside", "outside-rel", "outside-parent"}
-	specs := []spec{
-		{Mode: "bydir", Cwd: cw[(i/4)%4], Filter: drawFilter(r, t, false), FilterForm: r.Intn(4)},
-		{Mode: "top", Cwd: cw[(i/4+1)%4], Filter: drawFilter(r, t, true), FilterForm: r.Intn(4), TopN: []int{5, 30, 200}[r.Intn(3)]},
-	}
+	s0 := sp("bydir", i%9)
+	s0.Filter, s0.FilterForm = drawFilter(r, t, false), r.Intn(4)
+	s1 := sp("top", (i+4)%9)
+	s1.Filter, s1.FilterForm, s1.TopN = drawFilter(r, t, true), r.Intn(4), []int{5, 30, 200}[r.Intn(3)]
+	specs := []spec{s0, s1}
 	if res.Wide {
 		// keep the long list in the top-file workload: no filter, or the wide language only
 		specs[1].Filter = nil
@@ -626,7 +712,7 @@ func raceRun(bin string, seed int64, tier string, i int, scratch string) raceRes
 			return res
 		}
 		for _, m := range ms {
-			m.Msg = fmt.Sprintf("[race build, GOMAXPROCS=%d, %d files, %s cwd=%s filter=%v] %s", gmp, len(t.Files), s.Mode, s.Cwd, s.Filter, m.Msg)
+			m.Msg = fmt.Sprintf("[race build, GOMAXPROCS=%d, %d files, %s root spelled %s filter=%v] %s", gmp, len(t.Files), s.Mode, s.Cwd, s.Filter, m.Msg)
 			res.Mismatches = append(res.Mismatches, m)
 		}
 	}
